@@ -63,6 +63,8 @@ def render_item(item, sp=' ') -> str:
         return '.memzone ' + item['zone']
     if t == 'createzone':
         return f"#create_memzone {item['name']} {item.get('start_text', item['start'])} {item.get('end_text', item['end'])}"
+    if t == 'require':
+        return '#require "' + item['text'] + '"'
     if t == 'define':
         return f"#define {item['name']}" + ('' if item.get('value') is None else f" {item['value']}")
     if t == 'if':
@@ -459,7 +461,9 @@ def general_program(draw, cfg, max_steps=30, extra=(), disable=()):
                 past = d(st.integers(0, 3)) == 0
                 b.add({'t': 'fill', 'n': b.value(left + (1 if past else 0), consts), 'v': b.lit(d(st.integers(0, 255)))})
                 feats.add('fill-past-zone-end' if past else 'fill-to-zone-end')
-        elif choice == 'include' and not muted and len(b.stack) < 3 and b.nfiles < 3:
+        elif choice == 'include' and len(b.stack) < 3 and b.nfiles < 3:
+            if muted:
+                feats.add('include-while-muted')
             b.nfiles += 1
             fname = f'inc{b.nfiles}.asm'
             if b.zone() != 'GLOBAL':
@@ -472,8 +476,14 @@ def general_program(draw, cfg, max_steps=30, extra=(), disable=()):
             for _ in range(d(st.integers(1, 5))):
                 if b.dead:
                     break
-                k = d(st.sampled_from(['instr', 'probe', 'label', 'memzone', 'flabel', 'org']))
-                if k == 'instr' and b.room() >= 6:
+                k = d(st.sampled_from(['instr', 'instr', 'probe', 'label', 'memzone', 'flabel', 'org', 'mute']))
+                if k == 'mute':
+                    # the mute depth is one and the same on both sides of the file boundary
+                    b.add({'t': 'unmute' if muted else 'mute', 'kw': d(st.sampled_from(['emit', 'unmute'])) if muted else 'mute'})
+                    muted = not muted
+                    feats.add('muted')
+                    feats.add('mute-change-inside-included-file')
+                elif k == 'instr' and b.room() >= 6:
                     b.add(b.instr())
                 elif k == 'probe' and b.room() >= 24:
                     b.add(b.probe())
@@ -613,6 +623,12 @@ def general_program(draw, cfg, max_steps=30, extra=(), disable=()):
                 consts[n] = v
     if muted:
         b.add({'t': 'unmute', 'kw': 'unmute'})
+    g = b.lay.zones['GLOBAL']
+    top = (1 << b.isa.address_size) - 1
+    if not b.dead and b.zone() == 'GLOBAL' and g[1] == top and 0 <= top - b.cursor() <= 600 and d(st.integers(0, 2)) == 0:
+        # pad the program up to the very last address: labels defined after it stand at 2**address_size
+        b.add({'t': 'zerountil', 'a': b.lit(top)})
+        feats.add('padded-to-the-top-of-the-address-space')
     for n in b.planned:
         if not b.defined.get(n) and not b.dead:
             b.add({'t': 'label', 'name': n})
